@@ -3586,6 +3586,21 @@ static bool is_function(Token *tok) {
 
 // Remove redundant tentative definitions.
 static void scan_globals(void) {
+  // An array length given by any declaration of an identifier completes
+  // the type of its other declarations: the object has the composite
+  // type [https://www.sigbus.info/n1570#6.2.7p4].
+  for (Obj *var = globals; var; var = var->next) {
+    if (var->is_function || var->ty->kind != TY_ARRAY || var->ty->size >= 0)
+      continue;
+    for (Obj *var2 = globals; var2; var2 = var2->next) {
+      if (!var2->is_function && var2->ty->kind == TY_ARRAY &&
+          var2->ty->size >= 0 && !strcmp(var->name, var2->name)) {
+        var->ty = var2->ty;
+        break;
+      }
+    }
+  }
+
   Obj head;
   Obj *cur = &head;
 
